@@ -101,8 +101,8 @@ type scenario struct {
 	trailing   int         // bytes at the end of the exchange that are not needed for success
 	inputClean func() bool // true once the command's return reached the device
 	lines      func() []string
-	open       bool // the operation is Open itself
-	opts []util.Option // operation options for loss runs (input matching mode)
+	open       bool          // the operation is Open itself
+	opts       []util.Option // operation options for loss runs (input matching mode)
 	// needed, if > 0, is the number of bytes of the exchange the operation needs (default: all but
 	// the trailing ones)
 	needed int
